@@ -80,7 +80,7 @@ pub fn judge(h: &History, recs: &[StepRec]) -> Result<u32, Failure> {
     let mut net_level: Option<i32> = None;
     let mut awaiting: Option<Vec<super::c08::Req>> = None;
     for r in recs {
-        if matches!(r.step, Step::Join(_) | Step::JoinAbp) || r.trace.iter().any(|e| matches!(e, Ev::Fault(_))) {
+        if matches!(r.step, Step::Join(_) | Step::JoinAbp | Step::SetSession { .. }) || r.trace.iter().any(|e| matches!(e, Ev::Fault(_))) {
             net_level = None;
             awaiting = None;
         }
